@@ -46,11 +46,13 @@ func runR13_4(c *Ctx, outer *R) {
 		}
 		// opened(fn): the slices a function with receiver L and index parameter I returns (non-nil results), looking
 		// through OpenValue(x) / a one-step accessor call on (L, I)
-		var opened func(fn *ssa.Function, depth int) []cT
-		opened = func(fn *ssa.Function, depth int) []cT {
+		var opened func(fn *ssa.Function, bind map[*ssa.Parameter]cT, depth int) []cT
+		opened = func(fn *ssa.Function, bind map[*ssa.Parameter]cT, depth int) []cT {
 			ev := mk(fn)
 			for _, p := range fn.Params {
-				if isIntegerType(p.Type()) {
+				if t, ok := bind[p]; ok {
+					ev.par[p] = t
+				} else if bind == nil && isIntegerType(p.Type()) {
 					ev.par[p] = ev.intSym("I", p.Type())
 				}
 			}
@@ -67,7 +69,7 @@ func runR13_4(c *Ctx, outer *R) {
 			}
 			return out
 		}
-		acc := opened(af, 0)
+		acc := opened(af, nil, 0)
 		// the parser's argument of the recursive ParseValue
 		pev := mk(pf)
 		var visited []cT
@@ -111,7 +113,7 @@ func runR13_4(c *Ctx, outer *R) {
 
 // sliceOf: canonical slice term(s) of v; an OpenValue/OpenValueErr call is looked through to its argument, a call of
 // a module accessor on (container, index) is replaced by what that accessor returns.
-func sliceOf(ev *gEnv, v ssa.Value, opened func(fn *ssa.Function, depth int) []cT, depth int) []cT {
+func sliceOf(ev *gEnv, v ssa.Value, opened func(fn *ssa.Function, bind map[*ssa.Parameter]cT, depth int) []cT, depth int) []cT {
 	switch x := v.(type) {
 	case *ssa.ChangeType:
 		return sliceOf(ev, x.X, opened, depth)
@@ -126,11 +128,19 @@ func sliceOf(ev *gEnv, v ssa.Value, opened func(fn *ssa.Function, depth int) []c
 		if cal != nil && (cal.Name() == "OpenValue" || cal.Name() == "OpenValueErr") && len(x.Call.Args) == 1 {
 			return sliceOf(ev, x.Call.Args[0], opened, depth)
 		}
-		if cal != nil && cal.Blocks != nil && cal.Signature.Recv() != nil && depth < 3 && len(x.Call.Args) == 2 {
-			// accessor on (L, I): the container is the receiver, the index the loop/parameter index
-			recv, idx := ev.term(x.Call.Args[0]), ev.term(x.Call.Args[1])
-			if recv.kind == 'o' && recv.s == "L" && idx.kind == 'i' && ev.an.str(idx) == "I" {
-				return opened(cal, depth+1)
+		if cal != nil && cal.Blocks != nil && cal.Signature.Recv() != nil && depth < 4 && len(x.Call.Args) == len(cal.Params) && len(x.Call.Args) >= 1 {
+			// a module method on the container: what it returns, with its parameters bound to the canonical
+			// arguments of this call (the index, or an offset computed from the index by the caller)
+			if recv := ev.term(x.Call.Args[0]); recv.kind == 'o' && recv.s == "L" {
+				bind := map[*ssa.Parameter]cT{}
+				for i, p := range cal.Params {
+					if i > 0 {
+						bind[p] = ev.term(x.Call.Args[i])
+					}
+				}
+				if res := opened(cal, bind, depth+1); len(res) > 0 {
+					return res
+				}
 			}
 		}
 	}
